@@ -132,6 +132,23 @@ fn parse_hgignore(file_path: &Path, dir_path: &Path) -> Result<Vec<HgignoreFilte
                                     }
                                 };
                             } else {
+                                // the rest of a line after an unescaped # is a comment
+                                let mut text = String::new();
+                                let mut chars = line.chars().peekable();
+                                while let Some(c) = chars.next() {
+                                    match c {
+                                        '\\' if chars.peek() == Some(&'#') => {
+                                            text.push('#');
+                                            chars.next();
+                                        }
+                                        '#' => break,
+                                        _ => text.push(c),
+                                    }
+                                }
+                                let line = text.trim_end().to_string();
+                                if line.is_empty() {
+                                    return;
+                                }
                                 let pattern = convert_hgignore_pattern(&line, dir_path, &syntax);
                                 match pattern {
                                     Ok(pattern) => result.push(pattern),
@@ -186,7 +203,7 @@ fn root_prefix(file_path: &Path) -> String {
 /// but always whole path components (`*.o` is not a prefix match).
 fn convert_hgignore_glob(glob: &str, file_path: &Path) -> Result<Regex, Error> {
     let pattern = HG_CONVERT_REPLACE_REGEX
-        .replace_all(glob.trim(), |c: &Captures| match c.index(0) {
+        .replace_all(glob.trim().trim_end_matches('/'), |c: &Captures| match c.index(0) {
             "**/" => "(.*/)?".to_string(),
             "**" => ".*".to_string(),
             "*" => "[^/]*".to_string(),
